@@ -32,8 +32,11 @@ PROBES = ["Foo v. Bar (2100) 1 U.S. 1", "Foo v. Bar (1599) 1 U.S. 1", "Foo v. Ba
 
 
 def plan(tier, seed):
-    return [dict(i=i, n=N[tier], seed=seed * 1000 + i, corpus=(i == 0), probes=(i == 0), markup_share=0.05)
+    specs = [dict(i=i, n=N[tier], seed=seed * 1000 + i, corpus=(i == 0), probes=(i == 0), markup_share=0.05)
             for i in range(SHARDS[tier])]
+    if tier == "thorough":
+        specs.append(dict(i=99, suite=True, n=0, seed=seed))
+    return specs
 
 
 def prepare(tier, seed, workdir):
@@ -146,6 +149,8 @@ def on_result_factory(rec):
 
 
 def run_shard(spec, rec):
+    if spec.get("suite"):
+        return _extract.suite_under_contracts(rec, "C18.")
     instrument.install(rec, what=())
     on_result = on_result_factory(rec)
     if spec.get("probes"):
